@@ -12,6 +12,7 @@
 #include <stdint.h>
 #include <signal.h>
 #include <setjmp.h>
+#include <string.h>
 #include "cstl/hash.h"
 
 static uint64_t s[2];
@@ -23,11 +24,51 @@ static void limbs(FILE *o, const char *n, uint64_t v)
 static sigjmp_buf jb;
 static void onsig(int sg) { siglongjmp(jb, sg); }
 
+/* ---- dense sweep: every key below 2^bits against a handful of table sizes, in parallel.  Only calls whose
+ * result is out of range (none on a correct library) and an evenly spaced sample are written out for TLC. ---- */
+#include <pthread.h>
+#define NTHR 16
+static const uint64_t dense_m[] = { 1, 2, 3, 7, 64, 1000, (1u << 24) + 1, 0x100000001ull, UINT64_MAX };
+#define NDM (sizeof dense_m / sizeof dense_m[0])
+struct slice { uint64_t lo, hi; uint64_t bad[64][3]; int nbad; uint64_t calls; };
+static void *dense_run(void *arg)
+{
+    struct slice *sl = arg; uint64_t k; size_t j;
+    for (k = sl->lo; k < sl->hi; k++) for (j = 0; j < NDM; j++) {
+        uint64_t m = dense_m[j], r = cstl_hash_mul((size_t)k, (size_t)m);
+        sl->calls++;
+        if (r >= m && sl->nbad < 64) { sl->bad[sl->nbad][0] = k; sl->bad[sl->nbad][1] = m; sl->bad[sl->nbad][2] = r; sl->nbad++; }
+    }
+    return NULL;
+}
+static int dense(const char *path, int bits)
+{
+    FILE *o = fopen(path, "w"); pthread_t th[NTHR]; static struct slice sl[NTHR]; uint64_t n = (uint64_t)1 << bits, total = 0; long id = 0; int t, i;
+    if (!o) return 73;
+    fprintf(o, "{\"id\":0,\"hdr\":true}\n");
+    for (t = 0; t < NTHR; t++) { sl[t].lo = n / NTHR * (uint64_t)t; sl[t].hi = t == NTHR - 1 ? n : n / NTHR * (uint64_t)(t + 1); sl[t].nbad = 0; sl[t].calls = 0; pthread_create(&th[t], NULL, dense_run, &sl[t]); }
+    for (t = 0; t < NTHR; t++) { pthread_join(th[t], NULL); total += sl[t].calls; }
+    for (t = 0; t < NTHR; t++) for (i = 0; i < sl[t].nbad; i++) {
+        fprintf(o, "{\"id\":%ld,\"f\":\"mul\",\"crash\":false,", ++id);
+        limbs(o, "k", sl[t].bad[i][0]); fputc(',', o); limbs(o, "m", sl[t].bad[i][1]); fputc(',', o); limbs(o, "r", sl[t].bad[i][2]);
+        fprintf(o, ",\"small\":false,\"ks\":0,\"ms\":0,\"rs\":0,\"dense\":true}\n");
+    }
+    for (i = 0; i < 400; i++) {            /* a sample of what was computed, so the evidence shows real calls */
+        uint64_t k = n / 400 * (uint64_t)i + 987, m = dense_m[i % NDM], r = cstl_hash_mul((size_t)k, (size_t)m);
+        fprintf(o, "{\"id\":%ld,\"f\":\"mul\",\"crash\":false,", ++id);
+        limbs(o, "k", k); fputc(',', o); limbs(o, "m", m); fputc(',', o); limbs(o, "r", r);
+        fprintf(o, ",\"small\":false,\"ks\":0,\"ms\":0,\"rs\":0,\"dense\":true}\n");
+    }
+    fclose(o);
+    printf("{\"calls\":%llu,\"records\":%ld}\n", (unsigned long long)total, id);
+    return 0;
+}
 int main(int argc, char **argv)
 {
     FILE *o; long n, i, id = 0; uint64_t fib[94]; int nf = 0, j;
     static const uint64_t ms_fixed[] = { 1, 2, 3, 5, 7, 8, 16, 31, 64, 100, 1000, 65535, 65536, (1u << 24) - 1, 1u << 24, (1u << 24) + 1,
         (1u << 24) + 2, (1u << 25) + 1, 0xffffffffu, 0x100000000ull, 0x100000001ull, 1ull << 40, (1ull << 53) + 1, UINT64_MAX, UINT64_MAX - 1, UINT64_MAX / 2 };
+    if (argc >= 4 && !strcmp(argv[2], "dense")) return dense(argv[1], atoi(argv[3]));
     if (argc < 4) return 64;
     o = fopen(argv[1], "w"); if (!o) return 73;
     s[0] = strtoull(argv[2], NULL, 10) * 0x9E3779B97F4A7C15ull + 77; s[1] = s[0] ^ 0xD1B54A32D192ED03ull;
